@@ -52,9 +52,10 @@ fn core_c02(tier: u8) -> &'static Vec<Prog> {
 pub fn n_random(prop: &str, tier: u8) -> usize {
     match (prop, tier) {
         ("C01", 0) => 3000,
-        ("C01", _) => 120_000,
+        // thorough programs are larger (<= 8 memory events, 4 threads x 2 ops): ~10x the iterations per program
+        ("C01", _) => 25_000,
         (_, 0) => 4000,
-        (_, _) => 160_000,
+        (_, _) => 30_000,
     }
 }
 
